@@ -338,11 +338,11 @@ impl EntrySpec {
 /// Write an archive with the real library through one of the five writer kinds.
 /// For the `write_file` kinds only file entries are written (others are skipped; the list of
 /// indices actually written is returned).
-pub fn write_archive(kind: WriterKind, cfg: &Cfg, entries: &[EntrySpec]) -> io::Result<(Vec<u8>, Vec<usize>)> {
+pub fn write_archive_to<W: std::io::Write>(kind: WriterKind, cfg: &Cfg, entries: &[EntrySpec], sink: W) -> io::Result<(W, Vec<usize>)> {
     let mut written = vec![];
     let bytes = match kind {
         WriterKind::Builder => {
-            let mut a = Archive::write_header(Vec::new())?;
+            let mut a = Archive::write_header(sink)?;
             for (i, e) in entries.iter().enumerate() {
                 a.add_entry(e.build(cfg)?)?;
                 written.push(i);
@@ -350,7 +350,7 @@ pub fn write_archive(kind: WriterKind, cfg: &Cfg, entries: &[EntrySpec]) -> io::
             a.finalize()?
         }
         WriterKind::WriteFile => {
-            let mut a = Archive::write_header(Vec::new())?;
+            let mut a = Archive::write_header(sink)?;
             for (i, e) in entries.iter().enumerate() {
                 if !e.write_file_compatible() {
                     continue;
@@ -361,7 +361,7 @@ pub fn write_archive(kind: WriterKind, cfg: &Cfg, entries: &[EntrySpec]) -> io::
             a.finalize()?
         }
         WriterKind::SolidBuilder => {
-            let mut a = Archive::write_header(Vec::new())?;
+            let mut a = Archive::write_header(sink)?;
             let mut sb = SolidEntryBuilder::new(cfg.options())?;
             for (i, e) in entries.iter().enumerate() {
                 sb.add_entry(e.build(&Cfg::plain())?)?;
@@ -371,7 +371,7 @@ pub fn write_archive(kind: WriterKind, cfg: &Cfg, entries: &[EntrySpec]) -> io::
             a.finalize()?
         }
         WriterKind::SolidArchiveAdd => {
-            let mut a = Archive::write_solid_header(Vec::new(), cfg.options())?;
+            let mut a = Archive::write_solid_header(sink, cfg.options())?;
             for (i, e) in entries.iter().enumerate() {
                 a.add_entry(e.build(&Cfg::plain())?)?;
                 written.push(i);
@@ -379,7 +379,7 @@ pub fn write_archive(kind: WriterKind, cfg: &Cfg, entries: &[EntrySpec]) -> io::
             a.finalize()?
         }
         WriterKind::SolidArchiveWriteFile => {
-            let mut a = Archive::write_solid_header(Vec::new(), cfg.options())?;
+            let mut a = Archive::write_solid_header(sink, cfg.options())?;
             for (i, e) in entries.iter().enumerate() {
                 if !e.write_file_compatible() {
                     continue;
@@ -391,6 +391,36 @@ pub fn write_archive(kind: WriterKind, cfg: &Cfg, entries: &[EntrySpec]) -> io::
         }
     };
     Ok((bytes, written))
+}
+
+pub fn write_archive(kind: WriterKind, cfg: &Cfg, entries: &[EntrySpec]) -> io::Result<(Vec<u8>, Vec<usize>)> {
+    write_archive_to(kind, cfg, entries, Vec::new())
+}
+
+/// A sink that behaves as badly as `Write` allows: every `write` and `write_vectored` accepts only a pseudo-random
+/// prefix (at least one byte) of what it is offered — a gathered write may stop inside any of its slices.
+pub struct ChaoticSink { pub out: Vec<u8>, state: u64 }
+impl ChaoticSink {
+    pub fn new(seed: u64) -> Self { ChaoticSink { out: vec![], state: seed | 1 } }
+    fn next(&mut self, bound: usize) -> usize { self.state ^= self.state << 13; self.state ^= self.state >> 7; self.state ^= self.state << 17; 1 + (self.state as usize) % bound }
+}
+impl std::io::Write for ChaoticSink {
+    fn write(&mut self, buf: &[u8]) -> io::Result<usize> {
+        if buf.is_empty() { return Ok(0); }
+        let n = if self.state % 3 == 0 { buf.len() } else { self.next(buf.len()) };
+        self.state = self.state.wrapping_mul(6364136223846793005).wrapping_add(1442695040888963407);
+        self.out.extend_from_slice(&buf[..n]);
+        Ok(n)
+    }
+    fn write_vectored(&mut self, bufs: &[std::io::IoSlice<'_>]) -> io::Result<usize> {
+        let total: usize = bufs.iter().map(|b| b.len()).sum();
+        if total == 0 { return Ok(0); }
+        let mut n = self.next(total);
+        let accepted = n;
+        for b in bufs { let k = n.min(b.len()); self.out.extend_from_slice(&b[..k]); n -= k; if n == 0 { break; } }
+        Ok(accepted)
+    }
+    fn flush(&mut self) -> io::Result<()> { Ok(()) }
 }
 
 /// A small valid archive with random configuration; returns bytes and a JSON description.
